@@ -926,7 +926,10 @@ impl LunarDay {
     } else if !solar.is_before(solar_shun_bai2) {
       offset = solar.subtract(solar_shun_bai2);
     } else if solar.is_before(solar_shun_bai) {
-      offset = 8 + solar_shun_bai.subtract(solar);
+      // still descending from the turning point of the previous summer solstice (120, 180 or 240 days before solar_shun_bai)
+      let xia_zhi_solar0: SolarDay = dong_zhi.next(-12).get_julian_day().get_solar_day();
+      let xia_zhi_index0: isize = xia_zhi_solar0.get_lunar_day().get_sixty_cycle().get_index() as isize;
+      offset = 8 - solar.subtract(xia_zhi_solar0.next(if xia_zhi_index0 > 29 { 60 - xia_zhi_index0 } else { -xia_zhi_index0 }));
     }
     NineStar::from_index(offset)
   }
